@@ -354,7 +354,7 @@ func (s *Server) watchIOBEvents(
 func (s *Server) serveHTTP(ctx context.Context) error {
 	/* Set up a server. */
 	hsvr := http.Server{
-		Handler:  s.newMux(),
+		Handler:  s.abandonUnreadBodies(s.newMux()),
 		ErrorLog: log.New(s.ps, "Server error: ", log.Lmsgprefix),
 		BaseContext: func(_ net.Listener) context.Context {
 			return ctx
